@@ -91,7 +91,12 @@ func scnAttest(g *Gen, budget int, arg string) {
 		legacy := g.pick(3)
 		honest := mk(signers, legacy, nil)
 		pos := g.pick(t)
-		switch g.pick(18) {
+		switch g.pick(19) {
+		case 18: // the mirror image (negated private key) of signer j's key at position pos: same X, other key
+			a := append([]byte{}, honest...)
+			j := g.pick(t)
+			copy(a[pos*65:(pos+1)*65], g.mirrorSign(signers[j], msg))
+			g.verifyOp(msg, sortSigsByAddr(msg, a), attesters, t)
 		case 0, 1, 2:
 			g.verifyOp(msg, honest, attesters, t)
 		case 3: // swap two positions
@@ -318,7 +323,7 @@ func (g *Gen) recvCase(ok [rcN]bool, module bool, usedPool *[][2]uint64) {
 	}
 	o := attOpts{legacyV: g.pick(3)}
 	if !ok[rcAttValid] {
-		muts := []string{"trunc1", "trunc65", "pad1", "pad65", "dupLast", "highSTwin", "reverse", "badV", "zeroR", "flipBit", "other", "unknown"}
+		muts := []string{"trunc1", "trunc65", "pad1", "pad65", "dupLast", "highSTwin", "reverse", "badV", "zeroR", "flipBit", "other", "unknown", "mirrorKey"}
 		m := muts[g.pick(len(muts))]
 		switch m {
 		case "other":
@@ -791,7 +796,11 @@ func (g *Gen) validFlow(i int) {
 		ty, kv := g.opDeposit(from, fmt.Sprint(1+g.pick(50)), true)
 		g.tx(ty, kv)
 	case 4: // receive of a module-addressed burn message
-		msg := g.inboundBurn(0, g.freshNonce(0), big.NewInt(int64(1+g.pick(1000))), g.pick(len(g.acctRaw)))
+		amt := big.NewInt(int64(1 + g.pick(1000)))
+		if g.chance(0.25) {
+			amt = bigPool(g)
+		}
+		msg := g.inboundBurn(0, g.freshNonce(0), amt, g.pick(len(g.acctRaw)))
 		g.tx("ReceiveMessage", g.opReceive(from, msg, attOpts{}))
 	case 5: // receive of a message for somebody else
 		msg := buildMessage(0, 0, 4, g.freshNonce(0), g.rand32(), g.otherRecipient(), make([]byte, 32), g.randBytes(g.pick(100)))
@@ -967,7 +976,11 @@ func scnFaults(g *Gen, budget int, arg string) {
 				}
 				g.tx(ty, kv.set("faults", plan))
 			case 6, 7, 8:
-				msg := g.inboundBurn(0, g.freshNonce(0), big.NewInt(int64(1+g.pick(1000))), g.pick(len(g.acctRaw)))
+				amt := big.NewInt(int64(1 + g.pick(1000)))
+				if g.chance(0.4) {
+					amt = bigPool(g)
+				}
+				msg := g.inboundBurn(0, g.freshNonce(0), amt, g.pick(len(g.acctRaw)))
 				g.tx("ReceiveMessage", g.opReceive(from, msg, attOpts{}).set("faults", plan))
 			default:
 				msg := buildMessage(0, 0, 4, g.freshNonce(0), g.rand32(), g.otherRecipient(), make([]byte, 32), g.randBytes(g.pick(100)))
@@ -1244,6 +1257,9 @@ func (g *Gen) mutateValue(sub, k, v string) string {
 	case poolStringFields[k]:
 		return hs(denomPool[g.pick(len(denomPool))])
 	case k == "token" && sub == "TokenPair":
+		if g.chance(0.6) {
+			return hs(g.remoteTokenSpelling())
+		}
 		return hs([]string{"", "0x", "zz", "0x" + strings.Repeat("ab", 40), "ünï", "0xABCDEF"}[g.pick(6)])
 	case stringFields[k]:
 		switch g.pick(7) {
